@@ -11,7 +11,11 @@ calculations), then
     dump_simulation(sim, <tmp>/dump)        (tmp = /root/scratch/c19-run-*, removed per case)
     restored = restore_simulation(<tmp>/dump, tbs)
 
-and requests after it, run on BOTH the original and the restored simulation.  The Coq
+and requests after it, run on BOTH the original and the restored simulation; the same
+directory is then restored three more times (while the first restored simulation is alive,
+after a restored simulation has been deleted and collected) and every one of them is
+compared with the original, as is the file set of the dump directory (restore only reads:
+in the model restore_simulation is a function of the file system).  The Coq
 model (coq/model/Dump.v over coq/model/Engine.v) is given the same case and must reproduce
 the answers, both caches, both entity structures and the number of files per variable
 directory.
@@ -28,6 +32,7 @@ from __future__ import annotations
 
 import copy
 import datetime
+import gc
 import json
 import os
 import shutil
@@ -62,7 +67,9 @@ RULE = ("stream 'eng' (5 of 6 cases): random rule systems of harness/rules.py (3
         "roles), with or without the group entity (persons-only), populations with arbitrary distinct person and "
         "group ids, interleaved memberships, roles, member-less groups (often trailing), optionally every array on "
         "disk; inputs (incl. rolling years, every month, odd days) and calculations, then dump_simulation / "
-        "restore_simulation in a scratch directory, then further requests (calculations, inputs, deletions) on both "
+        "restore_simulation in a scratch directory (the same dump is restored four times in all, with deletion / "
+        "gc.collect() of restored simulations in between, each compared with the original, and the directory's file "
+        "set must not change), then further requests (calculations, inputs, deletions) on both "
         "simulations; a few dumps into a non-empty directory.  stream 'rich' (oracle only): fixed system with Enum / "
         "str / date / float / int / bool variables of all six definition periods, two group entities (sub-roles), "
         "formulas over them, same protocol.  Non-trivial: at least two arrays were dumped and restored and at least "
@@ -357,6 +364,16 @@ def compare_snapshots(a, b, what):
 # the protocol shared by both streams
 # ---------------------------------------------------------------------------------------
 
+def dir_listing(directory):
+    """every file below the dump directory with its size, sorted"""
+    out = []
+    for root, _dirs, files in os.walk(directory):
+        for f in files:
+            path = os.path.join(root, f)
+            out.append([os.path.relpath(path, directory), os.path.getsize(path)])
+    return sorted(out)
+
+
 def protocol(sim, tbs, dirty, before, after, request, after_dump=None, after_restore=None):
     """Runs before-requests, dump, restore, after-requests.  `request(sim, r)` performs one
     request and returns a canonical answer (exceptions are mapped to Err here).
@@ -388,6 +405,7 @@ def protocol(sim, tbs, dirty, before, after, request, after_dump=None, after_res
         if after_dump:
             after_dump(out, directory)
         out["orig"] = snapshot(sim)
+        out["listing"] = dir_listing(directory)
         if out["dump"] == "ok":
             try:
                 restored = restore_simulation(directory, tbs)
@@ -399,7 +417,32 @@ def protocol(sim, tbs, dirty, before, after, request, after_dump=None, after_res
             out["rest"] = snapshot(restored)
             if after_restore:
                 after_restore(out, restored)
-            # the dump directory is not needed any more: the restored simulation holds the arrays
+            # A dump can be restored any number of times (once per scenario / worker / later on):
+            # again while the first restored simulation is alive, and again after a restored
+            # simulation has been deleted and collected.  The directory is only read.
+            gc.collect()
+            out["listing"] = [out["listing"], dir_listing(directory)]
+            out["again"] = []
+            for drop in (False, True):
+                try:
+                    extra = restore_simulation(directory, tbs)
+                    out["again"].append(snapshot(extra))
+                except Exception as e:  # noqa: BLE001
+                    out["again"].append(Err(errkind(e), f"{type(e).__name__}: {e}"[:200]))
+                    extra = None
+                if drop:
+                    del extra
+                    gc.collect()
+                out["listing"].append(dir_listing(directory))
+            extra = None
+            try:
+                third = restore_simulation(directory, tbs)
+                out["again"].append(snapshot(third))
+                del third
+            except Exception as e:  # noqa: BLE001
+                out["again"].append(Err(errkind(e), f"{type(e).__name__}: {e}"[:200]))
+            gc.collect()
+            out["listing"].append(dir_listing(directory))
             out["later"] = [[answer(sim, r), answer(restored, r)] for r in after]
             out["orig_final"] = snapshot(sim)
             out["rest_final"] = snapshot(restored)
@@ -758,6 +801,18 @@ def oracle(case, obs):
     msg = compare_snapshots(obs["orig"], obs["rest"], "after restore")
     if msg:
         return msg
+    for k, snap in enumerate(obs["again"]):
+        if isinstance(snap, Err):
+            return f"again: restore number {k + 2} of the same dump raised: {snap.msg}"
+        msg = compare_snapshots(obs["orig"], snap, f"restore number {k + 2} of the same dump")
+        if msg:
+            return "again-" + msg
+    for k, listing in enumerate(obs["listing"][1:]):
+        if listing != obs["listing"][0]:
+            gone = [f for f in obs["listing"][0] if f not in listing]
+            new = [f for f in listing if f not in obs["listing"][0]]
+            return (f"dump-modified: the dump directory changed after restore number {k + 1}: "
+                    f"removed/changed {gone[:6]}, added {new[:6]}")
     for k, (a, b) in enumerate(obs["later"]):
         if isinstance(a, Err) or isinstance(b, Err):
             if not (isinstance(a, Err) and isinstance(b, Err) and a.kind == b.kind):
